@@ -86,6 +86,15 @@ type WideConfig struct {
 	EarnVaults       []string        `json:"earn_vaults"` // "denom:strategy[:private]"
 	SavingsDenoms    []string        `json:"savings_denoms"`
 	ProposalDurSec   int64           `json:"committee_proposal_duration_s"`
+	// BkavaEarnRate > 0 adds an incentive earn reward period for collateral type "bkava"
+	// (ukava per second, shared by all bkava-<validator> vaults in proportion to their value).
+	BkavaEarnRate int64 `json:"bkava_earn_rate,omitempty"`
+	// TokenCommitteeDurSec > 0 adds committee 3: a token committee tallied at the deadline (hard holders vote).
+	TokenCommitteeDurSec int64  `json:"token_committee_duration_s,omitempty"`
+	TokenCommitteeQuorum string `json:"token_committee_quorum,omitempty"`
+	// Fractional: sub-ukava (akava) balances of users 0,1,… in the precisebank genesis, backed by a
+	// matching reserve in the precisebank module account (remainder = what completes the sum to whole ukava).
+	Fractional []int64 `json:"fractional_akava,omitempty"`
 }
 
 func pickS(r interface{ Intn(int) int }, xs ...string) string { return xs[r.Intn(len(xs))] }
@@ -270,5 +279,13 @@ func randomWide(r interface {
 		w.SavingsDenoms = []string{"busd", "bkava"}
 	}
 	w.ProposalDurSec = pickI(r, 7*86400, 3600, 60, 30*86400)
+	w.BkavaEarnRate = pickI(r, 1000, 1, 190_000, 55, 0)
+	w.TokenCommitteeDurSec = pickI(r, 60, 3600, 86400, 7*86400, 600, 0)
+	w.TokenCommitteeQuorum = pickS(r, "0", "0.000001", "0.1", "0.5")
+	if r.Chance(1, 3) {
+		for i, n := 0, 1+r.Intn(3); i < n; i++ {
+			w.Fractional = append(w.Fractional, pickI(r, 1, 250_000_000_000, 999_999_999_999, 500_000_000_000, 123_456_789_012, 1_000_000))
+		}
+	}
 	return w
 }
